@@ -107,8 +107,9 @@ static std::vector<SVal> URIS, METAS, NAMES;
 static void init_inputs()
 {
     memset(LONGS, 'L', 47); LONGS[47] = 0;
-    URIS = { { nullptr, 0, "NULL" }, { "x", 2, "\"x\"" }, { LONGS, 48, "long48" }, { UNTERM, 2, "unterminated-ab" }, { "", 1, "\"\"" } };
-    METAS = { { nullptr, 0, "NULL" }, { "{}", 3, "\"{}\"" } };
+    // "pointer-with-0-bytes": a non-NULL pointer passed with a length of 0 is an empty string too
+    URIS = { { nullptr, 0, "NULL" }, { "x", 2, "\"x\"" }, { LONGS, 48, "long48" }, { UNTERM, 2, "unterminated-ab" }, { "", 1, "\"\"" }, { "zz", 0, "pointer-with-0-bytes" } };
+    METAS = { { nullptr, 0, "NULL" }, { "{}", 3, "\"{}\"" }, { "zz", 0, "pointer-with-0-bytes" } };
     NAMES = { { "x", 2, "\"x\"" }, { UNTERM, 2, "unterminated-ab" }, { nullptr, 0, "NULL" }, { "", 1, "\"\"" } };
 }
 
